@@ -21,6 +21,29 @@ THEOREMS = [
     "Typedpy.C18.p1_names_own_field", "Typedpy.C18.p1Sites_name_fields",
     "Typedpy.C18.mapped_sites_name_fields", "Typedpy.C18.mapped_example", "Typedpy.C18.stale_shared_inner_name_example",
     "Typedpy.C18.set_build_site_examples",
+    "Typedpy.C18.c18_startsWith_append",
+    "Typedpy.C18.c18_startsWith_self",
+    "Typedpy.C18.c18_startsWith_trans",
+    "Typedpy.C18.dWrapIdx_starts",
+    "Typedpy.C18.dWrapMap_starts",
+    "Typedpy.C18.dHeadEntries_starts",
+    "Typedpy.C18.dHeadZip_starts",
+    "Typedpy.C18.dHeadListLike_starts",
+    "Typedpy.C18.dHead_starts",
+    "Typedpy.C18.isFlat_not_classRef",
+    "Typedpy.C18.p1SiteD_names_own_field",
+    "Typedpy.C18.p1SiteD_nested_iff",
+    "Typedpy.C18.p1SiteD_isSome",
+    "Typedpy.C18.p1SitesD_name_fields",
+    "Typedpy.C18.p1SitesD_all_named",
+    "Typedpy.C18.scalar_is_path",
+    "Typedpy.C18.all_scalar_is_path",
+    "Typedpy.C18.flat_is_path",
+    "Typedpy.C18.statementDeep_implies_statement",
+    "Typedpy.C18.statementDeep_false",
+    "Typedpy.C18.statement_deep_partial",
+    "Typedpy.C18.deep_path_examples",
+    "Typedpy.C18.deep_deser_head_examples",
 ]
 RULE = ("flat classes (1..5 fields: Integer/Number/Float incl. sign variants, String, Boolean, Enum, and Array/Deque/"
         "Set/Tuple/Map over them) from the type-directed declaration generator; per class a valid argument set, then "
